@@ -47,6 +47,20 @@ type jv struct {
 	str  []byte
 	dec  []byte // decimal storage bytes
 	p, s int    // decimal precision/scale
+	own  int    // containers: 0 = stored in the enclosing container's format, 1 = small, 2 = large
+}
+
+// jLarge: the storage format of a nested container. The server sizes every container on its
+// own (small first, large when an offset does not fit), so a large parent normally holds SMALL
+// children; the child's type byte says which.
+func jLarge(v *jv, parent bool) bool {
+	switch v.own {
+	case 1:
+		return false
+	case 2:
+		return true
+	}
+	return parent
 }
 
 // ---- writer ----
@@ -54,12 +68,12 @@ type jv struct {
 func jTypeByte(v *jv, large bool) byte {
 	switch v.kind {
 	case jObject:
-		if large {
+		if jLarge(v, large) {
 			return 1
 		}
 		return 0
 	case jArray:
-		if large {
+		if jLarge(v, large) {
 			return 3
 		}
 		return 2
@@ -113,7 +127,7 @@ func jValue(v *jv, large bool) []byte {
 	w := &vw{}
 	switch v.kind {
 	case jObject, jArray:
-		return jContainer(v, large)
+		return jContainer(v, jLarge(v, large))
 	case jLiteral:
 		w.u8(v.lit)
 	case jInt16, jUint16:
@@ -439,6 +453,10 @@ func vhC14Decimal(pos, large int) {
 // has ~4*10^7 shapes).
 var jFan = 2
 
+// jMixed: every nested container chooses its own storage format (small or large) independently
+// of the container that holds it.
+var jMixed = false
+
 func jCheap(depth int) *jv {
 	k := vhChoose(6)
 	if depth == 0 && k >= 4 {
@@ -456,6 +474,9 @@ func jCheap(depth int) *jv {
 	case 4:
 		n := vhChoose(jFan + 1)
 		a := &jv{kind: jArray}
+		if jMixed {
+			a.own = 1 + vhChoose(2)
+		}
 		for i := 0; i < n; i++ {
 			a.kids = append(a.kids, jCheap(depth-1))
 		}
@@ -463,6 +484,9 @@ func jCheap(depth int) *jv {
 	}
 	n := vhChoose(jFan + 1)
 	o := &jv{kind: jObject}
+	if jMixed {
+		o.own = 1 + vhChoose(2)
+	}
 	for i := 0; i < n; i++ {
 		o.kids = append(o.kids, jCheap(depth-1))
 		o.keys = append(o.keys, vhBytes(1+i))
@@ -470,9 +494,20 @@ func jCheap(depth int) *jv {
 	return o
 }
 
-// VH_C14_Struct: nesting depth <= depth, fan-out <= 2, small (0) or large (1) format.
+// VH_C14_Struct: nesting depth <= depth, fan-out <= 2, small (0) or large (1) format throughout;
+// large 2 / 3: top level large / small and every nested container in a format of its own, fan-out
+// <= 1 below the top level; 4 / 5: the same with the full fan-out.
 func VH_C14_Struct(depth, large int) {
 	jFan = 2
+	jMixed = large >= 2
+	if large >= 4 { // 4 / 5: as 2 / 3 with the full fan-out below the top level
+		large -= 2
+	} else if large >= 2 {
+		jFan = 1
+	}
+	if large >= 2 {
+		large = 3 - large // 2 -> large top, 3 -> small top
+	}
 	if depth >= 3 {
 		jFan = 1 // depth 3: fan-out <= 2 at the top level, <= 1 below
 	}
@@ -547,6 +582,12 @@ func VH_C14_LongString(n, pos, large int) {
 	case 3:
 		// an out-of-line value BEHIND the long string: its offset lies beyond the string
 		doc = &jv{kind: jArray, kids: []*jv{sc, &jv{kind: jString, str: vhBytes(2)}, &jv{kind: jInt64, u: vhU64()}}}
+	case 4:
+		// what the server writes for a document beyond 64 KB: the outer container large, the
+		// nested containers (which fit 16-bit offsets) small
+		doc = &jv{kind: jArray, kids: []*jv{sc,
+			&jv{kind: jObject, own: 1, kids: []*jv{{kind: jInt16, u: uint64(vhU8() & 7)}}, keys: [][]byte{vhBytes(1)}},
+			&jv{kind: jArray, own: 1, kids: []*jv{{kind: jLiteral, lit: 1}}}}}
 	}
 	w := &vw{}
 	w.u8(jTypeByte(doc, large == 1))
